@@ -17,6 +17,9 @@ CLAUSES = {"GcKeepsIndex", "GcKeepsRecorded", "GcCreatesNothing", "GcRemovesAllG
            "DryRunDeletesNothing", "DryRunListsExactlyGarbage", "OutsideUntouched"}
 
 
+DRY_SPELLINGS = [["--dry-run"], ["-n", "-v"], ["-n"], ["--verbose", "--dry-run"], ["-nv"], ["--dry-run", "--verbose"], ["-v", "-n"]]
+
+
 def scenario(rng, k):
     proj = G.base_project(rng)
     steps = [G.run_step(rng, 100, again=False, p_fail=0.4)]
@@ -24,7 +27,8 @@ def scenario(rng, k):
         steps.append(G.run_step(rng, 100 + rng.choice([0, 1, 50]), again=True, p_fail=0.4,
                                 jobs=rng.choice([None, 2])))
     steps.append({"cmd": "plant", "entries": G.gc_plants(rng)})
-    steps.append({"cmd": "gcdry", "argv": ["gc", "--dry-run"]})
+    # every spelling and combination of the two flags: --dry-run must win whatever else is given
+    steps.append({"cmd": "gcdry", "argv": ["gc"] + DRY_SPELLINGS[k % len(DRY_SPELLINGS)]})
     steps.append({"cmd": "gc", "argv": ["gc"] + (["-v"] if rng.random() < 0.5 else [])})
     steps.append({"cmd": "gcdry", "argv": ["gc", "-n"]})
     return {"project": proj, "steps": steps, "tag": k}
